@@ -145,7 +145,7 @@ func (s *c09Stack) settle() error {
 	// read every table once: whether a table is in goleveldb's table cache is part of the state F51 depends on, and with
 	// all of them cached the behaviour is the same whether or not observations were made in between (replayability)
 	s.ldb.Seek(storage.SeekRange{Prefix: []byte{}}, func(_, _ []byte) bool { return true })
-	deadline := time.Now().Add(30 * time.Second)
+	deadline := time.Now().Add(c09StepTimeout / 2) // (shorter than a schedule step, so that this diagnosis comes first)
 	for {
 		l0, _ := s.ldb.VerifProperty("leveldb.num-files-at-level0")
 		live := 0
@@ -162,7 +162,9 @@ func (s *c09Stack) settle() error {
 			return nil
 		}
 		if time.Now().After(deadline) {
-			return errors.New("LevelDB background compaction did not settle within 30 s")
+			lg, _ := os.ReadFile(filepath.Join(s.ldbPath, "LOG"))
+			fmt.Fprintf(os.Stderr, "nghx c09: LevelDB did not settle: level0=%d live=%d on disk=%v\n%s\n", n0, live, onDisk, lg)
+			return errors.New("LevelDB background compaction did not settle in time")
 		}
 		time.Sleep(50 * time.Microsecond) // polling interval only
 	}
@@ -1166,14 +1168,15 @@ func runC09(args []string) error {
 		s.close(dir, backend, h)
 	}
 	// schedules: reader steps against writers and the lock regions of Persist
-	for i := 0; i < 4*cf.n; i++ {
+	fam := min(cf.n, 240) // the forced-schedule families do not need the volume of the histories
+	for i := 0; i < 4*fam; i++ {
 		ops, q := c09GenSched(r)
 		if err := c09RunSched(co, c09SInput{Backend: backends[i%3], Ops: ops, Q: q}, dir, cf.n+i); err != nil {
 			return fmt.Errorf("schedule %d: %w", i, err)
 		}
 	}
 	// lock-level schedules: a reader queued behind a queued Persist (needs the verif hook of pkg/core/storage)
-	for i := 0; i < 2*cf.n; i++ {
+	for i := 0; i < 2*fam; i++ {
 		in := c09GenLock(r)
 		in.Backend = backends[i%3]
 		if err := c09RunLock(co, in, dir, 5*cf.n+i); err != nil {
@@ -1181,7 +1184,7 @@ func runC09(args []string) error {
 		}
 	}
 	// two shared layers: Persist of the middle layer around a three-step reader, any SearchDepth
-	for i := 0; i < 2*cf.n; i++ {
+	for i := 0; i < 2*fam; i++ {
 		ops, q := c09GenSched2(r)
 		if err := c09RunSched2(co, c09SInput{Backend: backends[i%3], Ops: ops, Q: q}, dir, 9*cf.n+i); err != nil {
 			return fmt.Errorf("two-layer schedule %d: %w", i, err)
